@@ -1,7 +1,7 @@
 (* C09 at whole-world level, part 2: the simulation between `run` on a world and `run` on its
    optimised image (see the header of Proofs/OptWorldBase.v for the architecture). *)
 From TeraV Require Import Model.Value Model.Instr Model.Slice Model.Optimize Model.VM Model.StackCheck
-  Model.OptWorld Gen.Tables Proofs.OptimizeProofs Proofs.OptimizeSim Proofs.OptWorldBase.
+  Model.OptWorld Model.World0 Gen.Tables Proofs.OptimizeProofs Proofs.OptimizeSim Proofs.OptWorldBase.
 Local Open Scope nat_scope.
 
 (* ------------------------------------------------------------------------------------------ *)
@@ -1164,3 +1164,9 @@ Proof.
       specialize (H1 fuel Hl); rewrite (Hd fuel) in H1; rewrite E in H1; exact H1.
 Qed.
 
+
+(* the world-side hypotheses hold for every world that shares World0's built-ins (its filters
+   ignore the State, it has no functions, Value::get_attr of Undefined is None) *)
+Lemma world0_hyps tpls :
+  (forall a, w_get_attr (World0.world0 tpls) VUndef a = None) /\ scope_blind (World0.world0 tpls).
+Proof. split; [reflexivity|]. split; reflexivity. Qed.
